@@ -244,7 +244,13 @@ fn check_meta_form(enc0: &'static Encoding, label: &str, second_label: Option<&s
     // scan_mode: nothing after the meta tag is captured (the parser stays in tag-scan mode), so
     // the switch must be flushed by the meta tag itself, not by the next captured token
     let first = if scan_mode { HSpec::obs(HKind::Element, "p[id]") } else { HSpec::obs(HKind::DocText, "") };
-    let p = Prepared::new(Cfg { adjust_charset: true, ..Cfg::with(vec![first, HSpec::with_ops(HKind::DocEnd, "", vec![Op::Append("\u{416}".into(), true)])]).enc(enc0.name()) }).ok()?;
+    let mut hs = vec![first, HSpec::with_ops(HKind::DocEnd, "", vec![Op::Append("\u{416}".into(), true)])];
+    if http_equiv {
+        // an odd number of handlers makes the driver call the settings builder in the other order
+        // (adjust_charset_on_meta_tag before with_encoding)
+        hs.push(HSpec::obs(HKind::Element, "zzz"));
+    }
+    let p = Prepared::new(Cfg { adjust_charset: true, ..Cfg::with(hs).enc(enc0.name()) }).ok()?;
     if cuts.iter().any(|c| *c >= d.len()) {
         return None;
     }
